@@ -94,6 +94,7 @@ def rule_b_any(ctx):
                    "on every path from entry to a normal return through that operation")
     touching = touches_left_bodies(ctx)
     reps = {b.path for b, _, _ in replacer_sites(ctx)}
+    reps |= {b.path for b, _ in ctx.memo("empty_swaps", list)}      # `if both empty and unsplit { self.main = t }`: the length is a guard, not an answer
     seen = set()
     for body, c, role, recv in hb_calls(ctx):
         if role != MAIN or c.tname not in TABLE_WIDE:
@@ -114,7 +115,15 @@ def rule_b_any(ctx):
         elif c.loc.bb not in rl:
             # path entry -> call avoiding rl, and call -> return avoiding rl
             pre = body.paths_avoiding([0], rl, [c.loc.bb])
-            post = _must_pass(body, [c.target], rl, set()) if c.target is not None else None
+            # a path that goes on to *find the key* in the main table may return the hit at once, whatever it asked the table before
+            hit_edges = set()
+            for c9 in ctx.calls(body):
+                if c9.tname in (HBT + "find", HBT + "get", HBT + "get_mut") and c9.dest is not None and not c9.dest["proj"] \
+                        and ctx.role(body, c9.arg_path(0)) == MAIN and not body.is_cleanup(c9.loc.bb):
+                    from rules_typestate import option_test_edges, S as S__
+                    dl9 = c9.dest["local"]
+                    hit_edges |= {e for e, v in option_test_edges(ctx, body, lambda p_, dl9=dl9: p_.root == dl9 and not p_.fields(), ignore_debug=False).items() if v == S__}
+            post = _must_pass(body, [c.target], rl, hit_edges) if c.target is not None else None
             if pre is not None and post is not None:
                 ok = False
                 witness = pre + post
@@ -190,6 +199,9 @@ def rule_b_find(ctx):
                                 old_finds.add(c3.loc.bb)
         edges = left_test_edges(ctx, body)
         ok_edges = {e for e, v in edges.items() if v == N}
+        # .. or found empty: an old table without elements cannot hold the key
+        from rules_typestate import old_empty_edges
+        ok_edges |= {e for e, v in old_empty_edges(ctx, body).items() if v is True}
         w = _must_pass(body, miss_starts, old_finds, ok_edges)
         R.inst(fn=body.path, site=c.where(), old_lookups=len(old_finds), verdict="ok" if w is None else "VIOLATION")
         if w is not None:
@@ -635,7 +647,8 @@ def _sum_componentwise(b, ret_defs_loc, tuple_ops, src_main, src_old):
 
 def _check_size_hint(ctx, R, adt, b, key):
     calls = [c for c in ctx.calls(b) if not b.is_cleanup(c.loc.bb)]
-    hints = [(bd, c) for bd in [b] + ctx.facts.closures_of(b) for c in ctx.calls(bd) if c.method == "size_hint" and not bd.is_cleanup(c.loc.bb)]
+    hints = [(bd, c) for bd in [b] + ctx.facts.closures_of(b) for c in ctx.calls(bd) if c.method in ("size_hint", "len") and not bd.is_cleanup(c.loc.bb)
+             and c.args and c.args[0]["k"] in ("copy", "move")]
     main_sh = [c for bd, c in hints if bd is b and _side_of_receiver(ctx, b, c) == "IT_MAIN"]
     old_sh = [(bd, c) for bd, c in hints if _side_of_receiver(ctx, bd, c) == "IT_OLD"]
     # the old side's hint taken through a combinator with the method itself as the function: self.old.as_ref().map(Iterator::size_hint)
@@ -743,7 +756,10 @@ def _exact_size_hint(ctx, R, adt, b, key, main_sh, old_sh, helper_args=None):
     from rules_typestate import N as N__, S as S__
     try:
         if helper_args is None:
-            hx = HintExec(ctx, b, [c.loc for c in main_sh], [c.loc for c in old_sh], _old_field_edges(ctx, b))
+            # a side's exact length (ExactSizeIterator::len of a hashbrown iterator) is both its lower and its upper bound
+            hx = HintExec(ctx, b, [c.loc for c in main_sh if c.method == "size_hint"], [c.loc for c in old_sh if c.method == "size_hint"], _old_field_edges(ctx, b),
+                          main_vals={(b.path, c.loc.bb): ("sum", ("ML",)) for c in main_sh if c.method == "len"},
+                          old_vals={(b.path, c.loc.bb): ("sum", ("OL",)) for c in old_sh if c.method == "len"})
         else:
             # b is a helper handed (main hint, old hint): its parameters are the two hints; an Option-typed old hint may be absent
             from rules_typestate import option_test_edges
@@ -767,8 +783,10 @@ def _exact_size_hint(ctx, R, adt, b, key, main_sh, old_sh, helper_args=None):
 
     def show(x):
         return " + ".join({"M0": "main.lower", "M1": "main.upper", "O0": "old.lower", "O1": "old.upper"}[a] for a in x[1]) or "0"
+    def as_component(x, i):
+        return ("sum", tuple(sorted({"ML": "M%d" % i, "OL": "O%d" % i}.get(a, a) for a in x[1])))
     for val, polled, crossed, path, _a in results:
-        c0, c1 = val[1]
+        c0, c1 = as_component(val[1][0], 0), as_component(val[1][1], 1)
         where = b.where(Loc(path[-1], 0))
         trail = " -> ".join("bb%d" % x for x in path)
         if polled and N__ not in crossed:
